@@ -265,6 +265,18 @@ def gen_selection_cases(ctx):
             ps = 0          # pop_size=None: taken from the parameters
         cases.append({'op': 'sel', 't': t, 'multi': multi, 'default': default, 'ps': ps, 'pop': pop,
                       'seed': r.randrange(10 ** 6), 'ex': False})
+    # populations of 21..120 individuals (group size ceil(0.1 n) >= 3), requests from 1 to n, biased to n
+    for k in range(ctx.budget(140, 1200)):
+        multi = r.random() < 0.4
+        t = r.choice(['tournament', 'tournament', 'spea2'])
+        n = r.randint(21, 120 if t == 'tournament' else 48)
+        npool = r.choice([n, n, r.randint(21, n)])
+        pool = rand_pool(r, npool, multi, allow_invalid=(t == 'tournament'))
+        pop = rand_population(r, pool, n, r.choice([0.0, 0.0, 0.15]))
+        distinct = len({d[0] for d in pop})
+        ps = r.choice([r.randint(1, n), max(1, distinct - r.randint(0, 12)), distinct - 1 or 1, distinct, r.randint(1, n + 5)])
+        cases.append({'op': 'sel', 't': t, 'multi': multi, 'default': r.randint(1, n), 'ps': ps, 'pop': pop,
+                      'seed': r.randrange(10 ** 6), 'ex': False, 'large': True})
     for k in range(ctx.budget(300, 2000)):      # callable entries of selection_types are called as they are
         multi = r.random() < 0.5
         n = r.randint(1, 15)
@@ -274,21 +286,33 @@ def gen_selection_cases(ctx):
     return cases
 
 
-def eval_selection(ctx, cases, group='selection', given=None):
+def eval_selection(ctx, cases, group='selection', given=None, canary_ok=True):
+    big = [k for k, c in enumerate(cases) if len(c['pop']) > 20]
+    if big and len(big) < len(cases):
+        # large populations are much dearer to evaluate: their own, small shards (parallel coqc)
+        small = [k for k in range(len(cases)) if len(cases[k]['pop']) <= 20]
+        outs = [None] * len(cases)
+        for idx, can in ((small, canary_ok), (big, False)):
+            sub = eval_selection(ctx, [cases[k] for k in idx], group,
+                                 None if given is None else [given[k] for k in idx], canary_ok=can)
+            for k, o in zip(idx, sub):
+                outs[k] = o
+        return outs
+    shard = 24 if big else SHARD
     terms, outs = [], []
     for k, c in enumerate(cases):
         out = given[k] if given is not None else run_selection_case(c)
         outs.append(out)
         terms.append(selection_coq(c, out))
     canary = None
-    if group == 'selection':
+    if group == 'selection' and canary_ok:
         # canary: a selection that returns an individual twice must be flagged
         c = {'op': 'sel', 't': 'tournament', 'multi': False, 'default': 2, 'ps': 2,
              'pop': [[0, ['S', 1.0], 0], [1, ['S', 0.5], 0], [2, ['S', 2.0], 0]], 'seed': 0}
         terms.append(selection_coq(c, [[1, ['S', 0.5]], [1, ['S', 0.5]]]))
         ctx.canaries += 1
         canary = True
-    res = ctx.coq_cases(group, REQ, SEL_FN, terms, 2, preamble=PRE + PRE_BIG, shard=SHARD)
+    res = ctx.coq_cases(group, REQ, SEL_FN, terms, 2, preamble=PRE + PRE_BIG, shard=shard)
     if canary:
         if res[-1] == (False, False):
             ctx.canaries_caught += 1
@@ -300,7 +324,8 @@ def eval_selection(ctx, cases, group='selection', given=None):
         ctx.count(group, key=(c['t'], c['multi'], eff, tuple((d[0], tuple(d[1])) for d in c['pop'])),
                   nontrivial=distinct > eff, type=c['t'], multi=c['multi'],
                   branch=('single' if distinct == 1 else 'pass-through' if distinct <= eff else 'selected'),
-                  repeats=distinct < len(c['pop']), pop_size=eff)
+                  repeats=distinct < len(c['pop']), pop_size=min(eff, 16),
+                  population=('21..120' if len(c['pop']) > 20 else '1..20'))
         if not ho:
             ctx.violate(group, rec, 'selection output violates the C16 selection clauses '
                                     '(subset / no repeats / size / single replication / SPEA-2 front kept)')
@@ -431,7 +456,16 @@ def run_inheritance_case(case):
     prev, new = pool.build(case['prev']), pool.build(case['new'])
     params = GPAlgorithmParameters(selection_types=[SEL[case['t']][0]], pop_size=case['pop_size'],
                                    genetic_scheme_type=SCH[case['sc']][0], multi_objective=case['multi'])
-    inh = Inheritance(params, Selection(params))
+    if case.get('sel_pop_size'):
+        # diverging parameters: the Selection is built from ANOTHER GPAlgorithmParameters object (its own
+        # pop_size, a scheme that must not matter); the selection TYPE is the Selection's, the population
+        # size and the scheme are the Inheritance's
+        sel_params = GPAlgorithmParameters(selection_types=[SEL[case['t']][0]], pop_size=case['sel_pop_size'],
+                                           genetic_scheme_type=SCH['generational'][0], multi_objective=case['multi'])
+        params.selection_types = [SEL[case.get('inh_t', case['t'])][0]]
+        inh = Inheritance(params, Selection(sel_params))
+    else:
+        inh = Inheritance(params, Selection(params))
     seed_impl(case['seed'])
     try:
         out = inh(prev, new)
@@ -468,8 +502,13 @@ def gen_inheritance_cases(ctx):
         extra = rand_pool(r, r.randint(0, 10), multi, uid0=100)
         cand = (pool + extra) if r.random() < 0.7 else (extra or pool)
         prev = rand_population(r, cand, r.randint(1, 15), rp)
-        cases.append({'op': 'inh', 'sc': sc, 't': t, 'multi': multi, 'pop_size': r.randint(1, 15),
-                      'prev': prev, 'new': new, 'seed': r.randrange(10 ** 6)})
+        case = {'op': 'inh', 'sc': sc, 't': t, 'multi': multi,
+                'pop_size': r.randint(1, 15) if r.random() < 0.9 else r.randint(16, 30),
+                'prev': prev, 'new': new, 'seed': r.randrange(10 ** 6)}
+        if r.random() < 0.3:       # the nested Selection has its own parameters object
+            case['sel_pop_size'] = r.randint(1, 15)
+            case['inh_t'] = r.choice(['tournament', 'spea2'])
+        cases.append(case)
     return cases
 
 
@@ -500,7 +539,8 @@ def eval_inheritance(ctx, cases, group='inheritance', given=None):
                   nontrivial=(c['sc'] == 'generational' or distinct > c['pop_size'] or
                               (c['t'] in CUSTOM and bool(set(pu) & set(nu)))), scheme=c['sc'], type=c['t'],
                   multi=c['multi'], overlap=bool(set(pu) & set(nu)),
-                  repeats=(len(set(pu)) < len(pu) or len(set(nu)) < len(nu)))
+                  repeats=(len(set(pu)) < len(pu) or len(set(nu)) < len(nu)),
+                  parameters=('diverging' if c.get('sel_pop_size') or c.get('diverged') else 'shared'))
         if not ho:
             ctx.violate(group, rec, 'inheritance output violates the C16 clauses (drawn from prev + new / no '
                                     'individual twice / at most pop_size)')
@@ -682,37 +722,62 @@ def _apply_params(params, st):
     params.multi_objective = st['multi']
 
 
+def _new_params(st):
+    return GPAlgorithmParameters(pop_size=st['pop_size'], min_pop_size_with_elitism=st['min_pop'],
+                                 elitism_type=ELI[st['et']][0], selection_types=[SEL[st['t']][0]],
+                                 genetic_scheme_type=SCH[st['sc']][0], multi_objective=st['multi'])
+
+
 def run_session(session):
     """returns the per-call cases (in the format of the stand-alone groups, parameters in force
-    at the call) and the observed outputs"""
-    st = dict(session['init'])
-    params = GPAlgorithmParameters(pop_size=st['pop_size'], min_pop_size_with_elitism=st['min_pop'],
-                                   elitism_type=ELI[st['et']][0], selection_types=[SEL[st['t']][0]],
-                                   genetic_scheme_type=SCH[st['sc']][0], multi_objective=st['multi'])
+    at the call) and the observed outputs.  Each operator is judged for ITS OWN current parameters
+    object: the one it was built with or the last one passed to its update_requirements (tracked
+    here, not read back from the operator); an Inheritance takes scheme and pop_size from its own
+    object and the selection type from the object of the Selection it delegates to."""
+    params = _new_params(session['init'])
+    state = {id(params): dict(session['init'])}
+    alive = [params]
     selection = Selection(params)
     inheritance = Inheritance(params, selection)
     elitism = Elitism(params)
+    ops = {'sel': selection, 'inh': inheritance, 'eli': elitism}
+    held = {'sel': params, 'inh': params, 'eli': params}
     pool = Pool()
     cases, outs = [], []
     for k, step in enumerate(session['steps']):
-        st.update(step['set'])
-        _apply_params(params, st)          # in place: the operators hold the same object
-        if step['update']:
-            for op in (selection, inheritance, elitism):
-                op.update_requirements(params)
+        on = step.get('on', 'eli')
+        if step.get('replace'):
+            # a NEW parameters object is handed to some operators only (public update_requirements)
+            st = dict(state[id(held[on])])
+            st.update(step['set'])
+            newp = _new_params(st)
+            alive.append(newp)
+            state[id(newp)] = st
+            for name in step['replace']:
+                ops[name].update_requirements(newp)
+                held[name] = newp
+        else:
+            st = state[id(held[on])]
+            st.update(step['set'])
+            _apply_params(held[on], st)     # in place: every operator holding this object sees it
+            if step['update']:
+                for name, op in ops.items():
+                    op.update_requirements(held[name])
         call = step['call']
         seed_impl(session['seed'] + k)
-        tag = {'session': session, 'step': k, 'seed': session['seed'] + k}
+        tag = {'session': session, 'step': k, 'seed': session['seed'] + k,
+               'diverged': len({id(o) for o in held.values()}) > 1}
+        se, ih, el = state[id(held['sel'])], state[id(held['inh'])], state[id(held['eli'])]
         try:
             if call['kind'] == 'eli':
-                c = dict(tag, op='eli', et=st['et'], multi=st['multi'], pop_size=st['pop_size'], min_pop=st['min_pop'],
+                c = dict(tag, op='eli', et=el['et'], multi=el['multi'], pop_size=el['pop_size'], min_pop=el['min_pop'],
                          best=call['best'], new=call['new'])
                 out = [pool.describe(o) for o in elitism(pool.build(call['best']), pool.build(call['new']))]
             elif call['kind'] == 'sel':
-                c = dict(tag, op='sel', t=st['t'], multi=st['multi'], default=st['pop_size'], ps=call['ps'], pop=call['pop'])
+                c = dict(tag, op='sel', t=se['t'], multi=se['multi'], default=se['pop_size'], ps=call['ps'], pop=call['pop'])
                 out = [pool.describe(o) for o in selection(pool.build(call['pop']), call['ps'] if call['ps'] else None)]
             else:
-                c = dict(tag, op='inh', sc=st['sc'], t=st['t'], multi=st['multi'], pop_size=st['pop_size'],
+                c = dict(tag, op='inh', sc=ih['sc'], t=se['t'], multi=ih['multi'], pop_size=ih['pop_size'],
                          prev=call['prev'], new=call['new'])
                 out = [pool.describe(o) for o in inheritance(pool.build(call['prev']), pool.build(call['new']))]
         except Exception as ex:
@@ -733,6 +798,7 @@ def gen_sessions(ctx):
         pool = rand_pool(r, r.randint(2, 12), multi_fit)
         extra = rand_pool(r, r.randint(0, 5), multi_fit, uid0=100)
         steps = []
+        diverging = r.random() < 0.4
         for _k in range(r.randint(2, 6)):
             change = {}
             for name in r.sample(['pop_size', 'pop_size', 'et', 't', 'sc', 'multi', 'min_pop'], r.choice([0, 1, 1, 2, 3])):
@@ -759,7 +825,12 @@ def gen_sessions(ctx):
             else:
                 call = {'kind': 'inh', 'new': rand_population(r, pool, r.randint(1, 12), rp),
                         'prev': rand_population(r, pool + extra, r.randint(1, 12), rp)}
-            steps.append({'set': change, 'update': r.random() < 0.5, 'call': call})
+            step = {'set': change, 'update': r.random() < 0.5, 'call': call}
+            if diverging:
+                step['on'] = r.choice(['sel', 'inh', 'eli'])
+                if r.random() < 0.35:
+                    step['replace'] = r.sample(['sel', 'inh', 'eli'], r.choice([1, 1, 2]))
+            steps.append(step)
         sessions.append({'op': 'session', 'multi_fit': multi_fit, 'init': init, 'steps': steps, 'seed': r.randrange(10 ** 6)})
     return sessions
 
@@ -998,7 +1069,10 @@ def run(ctx):
                 'spea2} x {steady_state, generational, parameter_free} x {keep_n_best, replace_worst, none} x single / '
                 'multi objective; an exhaustive small scope (all sequences of length <= 4 over 3 individuals) for '
                 'selection and elitism; reproduction: sequences of 1..3 reproduce() calls with a scripted evaluator that '
-                'drops individuals; RUNS: real EvoGraphOptimizer.optimise() runs (3-4 generations, steady_state / parameter_free / '
+                'drops individuals; LARGE populations of 21..120 individuals (tournament group size >= 3) with requests from 1 to n; '
+                'DIVERGING parameters: an Inheritance whose Selection was built from another GPAlgorithmParameters object, and '
+                'sessions in which a new parameters object is handed to some operators only (each operator is judged for its '
+                'own current object); RUNS: real EvoGraphOptimizer.optimise() runs (3-4 generations, steady_state / parameter_free / '
                 'generational with offspring_rate 1, pop_size moving, some failing evaluations) in which every call of '
                 'reproducer.reproduce (with its evaluator and requested sizes), inheritance and elitism is observed on the '
                 'instance and judged for the parameters in force at that call; CUSTOM selection callables in selection_types (first-n, last-n, truncation by fitness; '
